@@ -284,10 +284,16 @@ func parseURLs(vars []RvInstruction, device bool) (urls []*url.URL) { //nolint:g
 			}
 
 		case RVDns:
-			_ = cbor.Unmarshal(v.Value, &dnsAddr)
+			var dns string
+			if err := cbor.Unmarshal(v.Value, &dns); err == nil {
+				dnsAddr = dns
+			}
 
 		case RVIPAddress:
-			_ = cbor.Unmarshal(v.Value, &ipAddr)
+			var ip net.IP
+			if err := cbor.Unmarshal(v.Value, &ip); err == nil {
+				ipAddr = ip
+			}
 		}
 	}
 
